@@ -127,7 +127,7 @@ def rand_env(r):
         # one composition in four is written as a chain of chains (same functions, same order)
         'trans_nesting': (lambda n: [k for k in ([n - n // 2, n // 2] if n >= 2 else [n]) if k] if r.random() < 0.25 else None)(len(tr)),
         # one view in four is off-centre (odd width, the agent still inside it): nothing requires the agent in the middle column
-        'obs': {'name': oname, 'area': (lambda k: (-(h - 1), 0, -(half + k), half - k))(r.randint(-half, half) if r.random() < 0.25 else 0)},
+        'obs': {'name': oname, 'area': (lambda k: (-(h - 1), 0, -(half + k), half - k))(r.randint(-half, half) if r.random() < (0.5 if oname == 'partially_occluded' else 0.25) else 0)},
         'reward': {'name': 'reduce_sum', 'parts': parts},
         'term': comp.rand_term(r, rtypes + [TYN['MovingObstacle']]),
     }
